@@ -765,18 +765,24 @@ class CFG:
             # the condition of a block that ends an `a && b` / `a || b` chain
             # is reported by clang as the whole logical expression; its value
             # on leaving this block is the value of the last operand
+            neg = False
             while True:
                 cj = self.fn.strip(c)
                 cn = self.fn.nodes[cj]
                 if cn["k"] == "Bin" and cn["op"] in ("&&", "||") and self.fn.strip(blk.get("term", -1)) != cj:
                     c = cn["ch"][1]
+                elif cn["k"] == "Un" and cn.get("op") == "!" and self.fn.nodes[self.fn.strip(cn["ch"][0])]["k"] == "Bin" and self.fn.nodes[self.fn.strip(cn["ch"][0])]["op"] in ("&&", "||") \
+                        and self.fn.strip(blk.get("term", -1)) != self.fn.strip(cn["ch"][0]):
+                    # `!(a && b)` at the end of the chain: leaving this block its value is that of `!b`
+                    c = cn["ch"][0]
+                    neg = not neg
                 else:
                     break
             if len(ss) == 2:
                 if ss[0] is not None:
-                    yield (b, ss[0], c, True)
+                    yield (b, ss[0], c, not neg)
                 if ss[1] is not None:
-                    yield (b, ss[1], c, False)
+                    yield (b, ss[1], c, neg)
 
     def switch_edges(self):
         """yields (src, dst, cond_node, set_of_case_values or None for default)"""
